@@ -243,6 +243,14 @@ Theorem placeholder_hypotheses_checked : forall content d tail,
 Proof. exact check_phdoc_sound. Qed.
 Print Assumptions placeholder_hypotheses_checked.
 
+(* the form the correspondence run evaluates on every rendered page (all comparisons of a page in one case) *)
+Theorem rendered_page_hypotheses_checked : forall t tbl d tail ph toks fin,
+  check_page (t, tbl, (d, tail), ph, toks, fin) = true ->
+  clean (doc_text d tail) /\ Forall wf_part (doc_parts d) /\
+  exists pd pt, doc_text d tail = phdoc_bytes pd pt /\ ph_clean (phdoc_text pd pt) /\ ph_pieces_ok pd pt.
+Proof. exact check_page_sound. Qed.
+Print Assumptions rendered_page_hypotheses_checked.
+
 Theorem serialisation_hypothesis_checked : forall x ser toks, ser_okb x ser toks = true -> ser_ok x ser toks.
 Proof. exact ser_okb_spec. Qed.
 Print Assumptions serialisation_hypothesis_checked.
